@@ -267,6 +267,38 @@ class _DeWalrus(ast.NodeTransformer):
                 and isinstance(t.left.target, ast.Name) and isinstance(t.comparators[0], ast.Constant):
             ne = t.left
             brk = ast.Compare(left=ast.Name(ne.target.id, ast.Load()), ops=[ast.Eq() if isinstance(t.ops[0], ast.NotEq) else ast.NotEq()], comparators=t.comparators)
+        if ne is None and not node.orelse:
+            # general form: the walrus is the first thing the test evaluates (`(x := e).exists()`, `f(x := e) > 0`, `(x := e) and g(x)` ...):
+            #   while T[(x := e)]: B   ==   while True: x = e; if not T[x]: break; B
+            cur, parent, field = t, None, None
+            while True:
+                if isinstance(cur, ast.NamedExpr):
+                    break
+                nxt = None
+                if isinstance(cur, ast.Attribute):
+                    nxt, fld = cur.value, 'value'
+                elif isinstance(cur, ast.Call):
+                    nxt, fld = cur.func, 'func'
+                elif isinstance(cur, (ast.Compare, ast.BinOp)):
+                    nxt, fld = cur.left, 'left'
+                elif isinstance(cur, ast.UnaryOp):
+                    nxt, fld = cur.operand, 'operand'
+                elif isinstance(cur, ast.BoolOp):
+                    nxt, fld = cur.values[0], ('values', 0)
+                elif isinstance(cur, ast.Subscript):
+                    nxt, fld = cur.value, 'value'
+                if nxt is None:
+                    cur = None
+                    break
+                parent, field, cur = cur, fld, nxt
+            if cur is not None and parent is not None and isinstance(cur.target, ast.Name) and sum(isinstance(x, ast.NamedExpr) for x in ast.walk(t)) == 1:
+                ne = cur
+                repl = ast.Name(cur.target.id, ast.Load())
+                if isinstance(field, tuple):
+                    getattr(parent, field[0])[field[1]] = repl
+                else:
+                    setattr(parent, field, repl)
+                brk = ast.UnaryOp(op=ast.Not(), operand=t)
         if ne is None or node.orelse:
             return node
         asg = ast.copy_location(ast.Assign(targets=[ast.Name(ne.target.id, ast.Store())], value=ne.value), t)
@@ -274,6 +306,105 @@ class _DeWalrus(ast.NodeTransformer):
         new = ast.copy_location(ast.While(test=ast.copy_location(ast.Constant(True), t), body=[asg, cond] + node.body, orelse=[]), node)
         ast.fix_missing_locations(new)
         return new
+
+
+class _StatementForms(ast.NodeTransformer):
+    """Normal forms of single statements (behaviour-preserving, same evaluation order):
+      * `acc.extend(e for t in it if c)` / `acc.extend([e for ...])`  ->  `for t in it: if c: acc.append(e)`
+      * `x = a if c else b`  ->  `if c: x = a  else: x = b`
+      * `a = b = <constant>`  ->  `a = <constant>; b = <constant>`
+      * `with contextlib.suppress(E1, E2): B`  ->  `try: B  except (E1, E2): pass`
+      * `row = {'k1': v1, 'k2': v2, ...}` for a dict that has index-row columns among its keys  ->  `row = {}; row['k1'] = v1; row['k2'] = v2; ...`
+    so that rules written for the loop / if / item-assignment spelling the package uses today also read the compact spellings."""
+    ROW_KEYS = {'hashkey', 'offset', 'length', 'size', 'compressed', 'pack_id'}
+
+    def _block(self, stmts):
+        out = []
+        for st in stmts:
+            new = None
+            if isinstance(st, ast.Expr) and isinstance(st.value, ast.Call) and isinstance(st.value.func, ast.Attribute) and st.value.func.attr in ('extend',) \
+                    and isinstance(st.value.func.value, ast.Name) and len(st.value.args) == 1 and not st.value.keywords \
+                    and isinstance(st.value.args[0], (ast.GeneratorExp, ast.ListComp, ast.SetComp)) and len(st.value.args[0].generators) == 1 and not st.value.args[0].generators[0].is_async:
+                comp = st.value.args[0]
+                g = comp.generators[0]
+                meth = 'append' if st.value.func.attr == 'extend' else 'add'
+                acc = st.value.func.value.id
+                if not any(isinstance(x, ast.Name) and x.id == acc for x in ast.walk(comp)):
+                    body = [ast.Expr(ast.Call(func=ast.Attribute(value=ast.Name(acc, ast.Load()), attr=meth, ctx=ast.Load()), args=[comp.elt], keywords=[]))]
+                    for c in reversed(g.ifs):
+                        body = [ast.If(test=c, body=body, orelse=[])]
+                    new = [ast.For(target=g.target, iter=g.iter, body=body, orelse=[])]
+            elif isinstance(st, ast.Assign) and len(st.targets) == 1 and isinstance(st.targets[0], ast.Name) and isinstance(st.value, ast.IfExp):
+                v = st.value
+                new = [ast.If(test=v.test, body=[ast.Assign(targets=[ast.Name(st.targets[0].id, ast.Store())], value=v.body)],
+                              orelse=[ast.Assign(targets=[ast.Name(st.targets[0].id, ast.Store())], value=v.orelse)])]
+            elif isinstance(st, (ast.Assign, ast.AnnAssign)) and isinstance(st.value, ast.Dict) and len(st.value.keys) >= 2 \
+                    and all(isinstance(k, ast.Constant) and isinstance(k.value, str) for k in st.value.keys) \
+                    and len({k.value for k in st.value.keys} & self.ROW_KEYS) >= 3:
+                tgt = st.targets[0] if isinstance(st, ast.Assign) and len(st.targets) == 1 else getattr(st, 'target', None)
+                if isinstance(tgt, ast.Name) and not any(isinstance(x, ast.Name) and x.id == tgt.id for x in ast.walk(st.value)):
+                    first = ast.Assign(targets=[ast.Name(tgt.id, ast.Store())], value=ast.Dict(keys=[], values=[])) if isinstance(st, ast.Assign) else \
+                        ast.AnnAssign(target=ast.Name(tgt.id, ast.Store()), annotation=st.annotation, value=ast.Dict(keys=[], values=[]), simple=1)
+                    new = [first] + [ast.Assign(targets=[ast.Subscript(value=ast.Name(tgt.id, ast.Load()), slice=k, ctx=ast.Store())], value=v) for k, v in zip(st.value.keys, st.value.values)]
+            if new is None and isinstance(st, ast.Assign) and len(st.targets) > 1 and all(isinstance(t, ast.Name) for t in st.targets) and isinstance(st.value, ast.Constant):
+                new = [ast.Assign(targets=[t], value=ast.Constant(st.value.value)) for t in st.targets]
+            if new is None and isinstance(st, ast.With) and len(st.items) == 1 and st.items[0].optional_vars is None and isinstance(st.items[0].context_expr, ast.Call) \
+                    and dotted(st.items[0].context_expr.func) in ('suppress', 'contextlib.suppress') and st.items[0].context_expr.args and not st.items[0].context_expr.keywords:
+                excs = st.items[0].context_expr.args
+                typ = excs[0] if len(excs) == 1 else ast.Tuple(elts=list(excs), ctx=ast.Load())
+                new = [ast.Try(body=st.body, handlers=[ast.ExceptHandler(type=typ, name=None, body=[ast.Pass()])], orelse=[], finalbody=[])]
+            if new is None:
+                out.append(st)
+            else:
+                for n_ in new:
+                    ast.copy_location(n_, st)
+                    ast.fix_missing_locations(n_)
+                    # keep the line of each original sub-expression where possible
+                out.extend(new)
+        return out
+
+    def generic_visit(self, node):
+        super().generic_visit(node)
+        for field in ('body', 'orelse', 'finalbody'):
+            v = getattr(node, field, None)
+            if isinstance(v, list) and v and isinstance(v[0], ast.stmt):
+                setattr(node, field, self._block(v))
+        if isinstance(node, ast.Try):
+            for h in node.handlers:
+                h.body = self._block(h.body)
+        return node
+
+
+class _SplitOrGuards(ast.NodeTransformer):
+    """Normal form (behaviour-preserving): `if a or b: S` where S always leaves the block (ends in return / raise / continue / break) and there is no else-arm is
+    read as `if a: S` followed by `if b: S` (S a single return / raise / continue / break) -- exactly what short-circuit evaluation does.  Guards merged with `or` and guards written one after the other read alike."""
+    TERM = (ast.Return, ast.Raise, ast.Continue, ast.Break)
+
+    def _block(self, stmts):
+        import copy
+        out = []
+        for st in stmts:
+            if isinstance(st, ast.If) and not st.orelse and isinstance(st.test, ast.BoolOp) and isinstance(st.test.op, ast.Or) and st.body and isinstance(st.body[-1], self.TERM) \
+                    and len(st.body) == 1 and not any(isinstance(x, ast.NamedExpr) for x in ast.walk(st.test)):
+                for v in st.test.values:
+                    n_ = ast.If(test=v, body=copy.deepcopy(st.body), orelse=[])
+                    ast.copy_location(n_, st)
+                    ast.fix_missing_locations(n_)
+                    out.append(n_)
+            else:
+                out.append(st)
+        return out
+
+    def generic_visit(self, node):
+        super().generic_visit(node)
+        for field in ('body', 'orelse', 'finalbody'):
+            v = getattr(node, field, None)
+            if isinstance(v, list) and v and isinstance(v[0], ast.stmt):
+                setattr(node, field, self._block(v))
+        if isinstance(node, ast.Try):
+            for h in node.handlers:
+                h.body = self._block(h.body)
+        return node
 
 
 class _Accumulate(ast.NodeTransformer):
@@ -406,6 +537,331 @@ class _CanonCompare(ast.NodeTransformer):
         return node
 
 
+class _CallConvention(ast.NodeTransformer):
+    """Normal form (behaviour-preserving): every call of one of the package's own functions is spelled with as many positional arguments as the pinned tree
+    uses for that callee (dosa/callconv.json, generated by tools/gen_callconv.py); missing leading positionals are taken from keywords that name those
+    parameters, surplus positionals become keywords -- by the callee's *current* signature.  `f(pack_id=x)` and `f(x)` are the same call."""
+
+    def __init__(self, sigs, conv):
+        self.sigs, self.conv = sigs, conv
+
+    def visit_Call(self, node):
+        self.generic_visit(node)
+        name = node.func.attr if isinstance(node.func, ast.Attribute) else (node.func.id if isinstance(node.func, ast.Name) else None)
+        if name not in self.conv or name not in self.sigs:
+            return node
+        if any(isinstance(a, ast.Starred) for a in node.args) or any(k.arg is None for k in node.keywords):
+            return node
+        params, n = self.sigs[name], self.conv[name]
+        if n > len(params):
+            return node
+        while len(node.args) < n:
+            want = params[len(node.args)]
+            kw = next((k for k in node.keywords if k.arg == want), None)
+            if kw is None:
+                break
+            # only the keyword evaluated first may move in front without changing the evaluation order of the remaining keywords
+            node.keywords.remove(kw)
+            node.args.append(kw.value)
+        while len(node.args) > n:
+            v = node.args.pop()
+            node.keywords.insert(0, ast.keyword(arg=params[len(node.args)], value=v))
+        return node
+
+
+class _Rename(ast.NodeTransformer):
+    def __init__(self, mapping, subst):
+        self.mapping, self.subst = mapping, subst
+
+    def visit_Name(self, node):
+        if node.id in self.subst and isinstance(node.ctx, ast.Load):
+            import copy
+            return ast.copy_location(copy.deepcopy(self.subst[node.id]), node)
+        if node.id in self.mapping:
+            return ast.copy_location(ast.Name(self.mapping[node.id], node.ctx), node)
+        return node
+
+    def visit_arg(self, node):
+        return node
+
+
+def _inline_new_helpers(trees, known):
+    """Normal form (behaviour-preserving reading): a *private* function that is new with respect to the pinned tree (its name is not in dosa/known_functions.json),
+    has a single exit (no `return` except as its last statement), is neither a generator nor recursive nor decorated (staticmethod / classmethod apart), is read
+    as part of its callers: each call at statement level -- `h(..)`, `x = h(..)`, `return h(..)` -- is replaced by the helper's body with the parameters bound to
+    the arguments, and the helper's definition is dropped once no reference to it is left.  An extracted helper is the same code as before the extraction."""
+    import copy
+    helpers = {}
+
+    def collect(body, owner):
+        for st in body:
+            if isinstance(st, ast.ClassDef):
+                collect(st.body, st)
+            elif isinstance(st, ast.FunctionDef) and st.name not in known and st.name.startswith('_') and not st.name.startswith('__'):
+                decos = [dotted(d) for d in st.decorator_list]
+                if any(d not in ('staticmethod', 'classmethod') for d in decos):
+                    continue
+                a = st.args
+                if a.vararg or a.kwarg or a.kwonlyargs and any(d is None for d in a.kw_defaults):
+                    continue
+                inner = [n for n in ast.walk(st) if n is not st]
+                if any(isinstance(n, (ast.Yield, ast.YieldFrom, ast.Await, ast.FunctionDef, ast.AsyncFunctionDef, ast.ClassDef, ast.Global, ast.Nonlocal)) for n in inner):
+                    continue
+                body_ = [x for x in st.body if not (isinstance(x, ast.Expr) and isinstance(x.value, ast.Constant) and isinstance(x.value.value, str))]
+                rets = [n for n in inner if isinstance(n, ast.Return)]
+                if not body_:
+                    continue
+                single = len(rets) == 0 or (len(rets) == 1 and rets[0] is body_[-1])
+                if any(isinstance(n, ast.Call) and ((isinstance(n.func, ast.Attribute) and n.func.attr == st.name) or (isinstance(n.func, ast.Name) and n.func.id == st.name)) for n in inner):
+                    continue
+                if st.name in helpers:
+                    helpers[st.name] = None   # ambiguous name
+                else:
+                    helpers[st.name] = (st, owner, body_, 'staticmethod' in decos, single)
+    for t in trees:
+        collect(t.body, None)
+    helpers = {k: v for k, v in helpers.items() if v is not None}
+    if not helpers:
+        return trees
+
+    def call_of(e):
+        if not isinstance(e, ast.Call):
+            return None
+        if isinstance(e.func, ast.Attribute) and e.func.attr in helpers and helpers[e.func.attr][1] is not None and isinstance(e.func.value, ast.Name):
+            return e.func.attr
+        if isinstance(e.func, ast.Name) and e.func.id in helpers and helpers[e.func.id][1] is None:
+            return e.func.id
+        return None
+
+    def expand(call, hname, caller_names, sink):
+        """sink: 'expr' | ('assign', stmt) | 'return'; returns the replacement statements or None."""
+        fn, owner, body_, static, single = helpers[hname]
+        a = fn.args
+        params = [x.arg for x in a.posonlyargs + a.args]
+        if owner is not None and not static and params:
+            params = params[1:]
+        if any(isinstance(x, ast.Starred) for x in call.args) or any(k.arg is None for k in call.keywords) or len(call.args) > len(params):
+            return None
+        binding = dict(zip(params, call.args))
+        for k in call.keywords:
+            if k.arg not in params or k.arg in binding:
+                return None
+            binding[k.arg] = k.value
+        defaults = dict(zip(params[len(params) - len(a.defaults):], a.defaults)) if a.defaults else {}
+        for p_ in params:
+            if p_ not in binding:
+                if p_ not in defaults:
+                    return None
+                binding[p_] = defaults[p_]
+        stores = {n.id for st in body_ for n in ast.walk(st) if isinstance(n, ast.Name) and isinstance(n.ctx, (ast.Store, ast.Del))}
+        pre, subst, mapping = [], {}, {}
+        for p_ in params:
+            arg = binding[p_]
+            if isinstance(arg, ast.Name) and arg.id == p_:
+                continue
+            if p_ not in stores and (_simple_expr(arg) or isinstance(arg, ast.Constant)):
+                subst[p_] = arg
+            else:
+                new = p_ if p_ not in caller_names else f'{p_}_{hname.strip("_")}'
+                mapping[p_] = new
+                pre.append(ast.Assign(targets=[ast.Name(new, ast.Store())], value=copy.deepcopy(arg)))
+        for loc in stores - set(params):
+            if loc in caller_names:
+                pass   # an extracted block re-uses the caller's names for the caller's variables: keep them
+        body2 = [_Rename(mapping, subst).visit(copy.deepcopy(st)) for st in body_]
+        if sink == 'return':
+            # the helper's own returns are the caller's returns
+            out = pre + body2
+            if not (body2 and isinstance(body2[-1], (ast.Return, ast.Raise))):
+                out.append(ast.Return(value=None))
+        else:
+            def deliver(value):
+                if sink == 'expr':
+                    return [ast.Expr(value)] if value is not None and not isinstance(value, (ast.Name, ast.Constant)) else []
+                new = copy.copy(sink[1])
+                new.value = value if value is not None else ast.Constant(None)
+                # `x = h(..)` followed by `if x is None: continue` (the helper says "skip" by returning None): on the helper's `return None` paths the jump is taken at once
+                tgt = sink[1].targets[0] if isinstance(sink[1], ast.Assign) and len(sink[1].targets) == 1 else getattr(sink[1], 'target', None)
+                nxt = sink[2] if len(sink) > 2 else None
+                if isinstance(new.value, ast.Constant) and new.value.value is None and isinstance(tgt, ast.Name) and isinstance(nxt, ast.If) and not nxt.orelse and len(nxt.body) == 1 \
+                        and isinstance(nxt.body[0], (ast.Continue, ast.Break, ast.Return, ast.Raise)) and isinstance(nxt.test, ast.Compare) and len(nxt.test.ops) == 1 \
+                        and isinstance(nxt.test.ops[0], ast.Is) and isinstance(nxt.test.left, ast.Name) and nxt.test.left.id == tgt.id \
+                        and isinstance(nxt.test.comparators[0], ast.Constant) and nxt.test.comparators[0].value is None:
+                    return [new, copy.deepcopy(nxt.body[0])]
+                return [new]
+
+            class NotConvertible(Exception):
+                pass
+
+            def has_ret(x):
+                return any(isinstance(n, ast.Return) for n in ast.walk(x))
+
+            def conv(stmts):
+                # statements with `return` in tail positions -> statements that deliver the value and fall off the end
+                for i, st_ in enumerate(stmts):
+                    if isinstance(st_, ast.Return):
+                        return stmts[:i] + deliver(st_.value)
+                    if not has_ret(st_):
+                        continue
+                    rest = stmts[i + 1:]
+                    if isinstance(st_, ast.If):
+                        new_if = ast.copy_location(ast.If(test=st_.test, body=conv(st_.body + copy.deepcopy(rest)) or [ast.Pass()], orelse=conv(st_.orelse + copy.deepcopy(rest))), st_)
+                        return stmts[:i] + [new_if]
+                    if isinstance(st_, ast.Try) and not any(has_ret(x) for x in st_.body + st_.finalbody):
+                        new_try = ast.copy_location(ast.Try(body=st_.body, handlers=[ast.copy_location(ast.ExceptHandler(type=h.type, name=h.name, body=conv(h.body) or [ast.Pass()]), h) for h in st_.handlers],
+                                                            orelse=conv(st_.orelse + copy.deepcopy(rest)), finalbody=st_.finalbody), st_)
+                        return stmts[:i] + [new_try]
+                    if isinstance(st_, (ast.While, ast.For)) and not rest and sink == 'expr':
+                        # a loop that is the last statement of the helper: a bare `return` inside it (not in an inner loop) is a `break`
+                        class R2B(ast.NodeTransformer):
+                            ok = True
+
+                            def visit_While(self, n):
+                                if n is st_:
+                                    return self.generic_visit(n)
+                                if has_ret(n):
+                                    R2B.ok = False
+                                return n
+                            visit_For = visit_While
+
+                            def visit_Return(self, n):
+                                if n.value is not None and not (isinstance(n.value, ast.Constant) and n.value.value is None):
+                                    R2B.ok = False
+                                return ast.copy_location(ast.Break(), n)
+                        R2B.ok = True
+                        new_loop = R2B().visit(st_)
+                        if R2B.ok:
+                            return stmts[:i] + [new_loop]
+                    raise NotConvertible
+                return stmts + deliver(None)
+            try:
+                out = pre + (conv(body2) if not single else (body2[:-1] + deliver(body2[-1].value) if body2 and isinstance(body2[-1], ast.Return) else body2 + deliver(None)))
+            except NotConvertible:
+                return None
+        for n_ in out:
+            ast.copy_location(n_, call)
+            ast.fix_missing_locations(n_)
+        return out
+
+    class Inliner(ast.NodeTransformer):
+        def __init__(self):
+            self.count = 0
+
+        def visit_FunctionDef(self, node):
+            self.generic_visit(node)
+            names = {n.id for n in ast.walk(node) if isinstance(n, ast.Name)} | {x.arg for x in ast.walk(node) if isinstance(x, ast.arg)}
+            for ch in [node] + [n for n in ast.walk(node) if n is not node]:
+                for field in ('body', 'orelse', 'finalbody'):
+                    v = getattr(ch, field, None)
+                    if isinstance(v, list) and v and isinstance(v[0], ast.stmt):
+                        setattr(ch, field, self._block(v, names))
+                if isinstance(ch, ast.Try):
+                    for h in ch.handlers:
+                        h.body = self._block(h.body, names)
+            return node
+
+        def _block(self, stmts, names):
+            out = []
+            for i_, st in enumerate(stmts):
+                nxt_ = stmts[i_ + 1] if i_ + 1 < len(stmts) else None
+                rep = None
+                if isinstance(st, ast.Expr):
+                    h = call_of(st.value)
+                    if h:
+                        rep = expand(st.value, h, names, 'expr')
+                elif isinstance(st, (ast.Assign, ast.AnnAssign)) and st.value is not None:
+                    h = call_of(st.value)
+                    if h:
+                        rep = expand(st.value, h, names, ('assign', st, nxt_))
+                elif isinstance(st, ast.Return) and st.value is not None:
+                    h = call_of(st.value)
+                    if h:
+                        rep = expand(st.value, h, names, 'return')
+                if rep is None:
+                    out.append(st)
+                else:
+                    self.count += 1
+                    out.extend(rep)
+            return out
+
+    for _ in range(3):
+        total = 0
+        for t in trees:
+            inl = Inliner()
+            inl.visit(t)
+            if inl.count:
+                t._inlined = True
+            total += inl.count
+        if not total:
+            break
+    # inlined statements carry the helper's line numbers: renumber the modules in which something was inlined so that source order == line order again
+    # (rules compare line numbers to order statements within a function); the original number is kept in `_orig_lineno` for messages
+    def renumber(tree):
+        counter = [0]
+
+        def visit(node):
+            if isinstance(node, (ast.stmt, ast.ExceptHandler)):
+                counter[0] += 1
+                for sub in ast.walk(node):
+                    if hasattr(sub, 'lineno') and not isinstance(sub, (ast.stmt, ast.ExceptHandler)) or sub is node:
+                        if not hasattr(sub, '_orig_lineno'):
+                            sub._orig_lineno = getattr(sub, 'lineno', None)
+                # direct expression children of this statement (not nested statements) share its number
+                todo = [node]
+                while todo:
+                    x = todo.pop()
+                    if hasattr(x, 'lineno'):
+                        x.lineno = counter[0]
+                        x.end_lineno = counter[0]
+                    for ch in ast.iter_child_nodes(x):
+                        if not isinstance(ch, (ast.stmt, ast.ExceptHandler)):
+                            todo.append(ch)
+            for ch in ast.iter_child_nodes(node):
+                if isinstance(ch, (ast.stmt, ast.ExceptHandler)):
+                    visit(ch)
+                elif not isinstance(node, (ast.stmt, ast.ExceptHandler)):
+                    visit(ch)
+        visit(tree)
+    for t in trees:
+        if getattr(t, '_inlined', False):
+            renumber(t)
+    # drop helper definitions that nothing refers to any more
+    refs = set()
+    for t in trees:
+        for n in ast.walk(t):
+            if isinstance(n, ast.Attribute):
+                refs.add(n.attr)
+            elif isinstance(n, ast.Name):
+                refs.add(n.id)
+    dead = {h for h in helpers if h not in refs}
+
+    def prune(body):
+        body[:] = [st for st in body if not (isinstance(st, ast.FunctionDef) and st.name in dead)]
+        for st in body:
+            if isinstance(st, ast.ClassDef):
+                prune(st.body)
+    for t in trees:
+        prune(t.body)
+    return trees
+
+
+def _signatures(trees):
+    defs = {}
+    for t in trees:
+        for n in ast.walk(t):
+            if isinstance(n, (ast.FunctionDef, ast.AsyncFunctionDef)):
+                a = n.args
+                ps = [x.arg for x in a.posonlyargs + a.args]
+                if ps and ps[0] in ('self', 'cls'):
+                    ps = ps[1:]
+                defs.setdefault(n.name, []).append(ps)
+            elif isinstance(n, ast.ClassDef):
+                init = next((m for m in n.body if isinstance(m, ast.FunctionDef) and m.name == '__init__'), None)
+                if init is not None:
+                    defs.setdefault(n.name, []).append([x.arg for x in init.args.posonlyargs + init.args.args][1:])
+    return {k: v[0] for k, v in defs.items() if len(v) == 1}
+
+
 class Program:
     def __init__(self, repo=None, extra_files=()):
         self.repo = repo or REPO
@@ -417,6 +873,7 @@ class Program:
         if not os.path.isdir(pkgdir):
             raise AnalysisError(f'package directory {pkgdir} not found')
         h = hashlib.sha256()
+        parsed = []
         for fname in sorted(os.listdir(pkgdir)):
             if not fname.endswith('.py'):
                 continue
@@ -428,7 +885,26 @@ class Program:
                 tree = ast.parse(src, filename=path)
             except SyntaxError as exc:
                 raise AnalysisError(f'cannot parse {path}: {exc}') from exc
+            parsed.append((fname, path, src, tree))
+        import json as _json
+        try:
+            with open(os.path.join(os.path.dirname(os.path.abspath(__file__)), 'callconv.json')) as fh:
+                conv = _json.load(fh)
+        except FileNotFoundError:
+            conv = {}
+        try:
+            with open(os.path.join(os.path.dirname(os.path.abspath(__file__)), 'known_functions.json')) as fh:
+                known = set(_json.load(fh))
+        except FileNotFoundError:
+            known = None
+        if known is not None:
+            _inline_new_helpers([t for _, _, _, t in parsed], known)
+        sigs = _signatures([t for _, _, _, t in parsed])
+        for fname, path, src, tree in parsed:
+            tree = _CallConvention(sigs, conv).visit(tree)
             tree = _DeWalrus().visit(tree)
+            tree = _StatementForms().visit(tree)
+            tree = _SplitOrGuards().visit(tree)
             tree = _Accumulate().visit(tree)
             tree = _CanonCompare().visit(tree)
             tree = _DeElse().visit(tree)
